@@ -163,7 +163,13 @@ def coq_str(s):
 def parse_coq_print(out, name):
     """Extract the body printed by `Print name.` (name = body : type)."""
     m = re.search(r'^%s\s*=\s*(.*?)\n\s*:\s' % re.escape(name), out, re.S | re.M)
-    return m.group(1).strip() if m else None
+    if not m:
+        return None
+    # Coq's pretty-printer breaks long lines at any blank and right after an opening parenthesis or bracket:
+    # undo the breaks so that parsers see "(0, 10)" and not "(\n 0, 10)"
+    body = re.sub(r'([(\[])\n\s*', r'\1', m.group(1))
+    body = re.sub(r'\n\s*', ' ', body)
+    return body.strip()
 
 
 # ---------------------------------------------------------------- Go harness
